@@ -6,6 +6,6 @@ cd "$(dirname "$0")"
 export CARGO_NET_OFFLINE=true
 ( cd lean && lake build EnrVerif enr_model )
 [ -f harness/Cargo.lock ] || cp /repo/Cargo.lock harness/Cargo.lock
-( cd harness && cargo build --offline )
+( cd harness && cargo build --offline && cargo build --offline --profile nodebug )
 mkdir -p out evidence
 echo "setup ok"
